@@ -110,8 +110,29 @@ def assume_in_range_plan(kind, a, b):
 
 
 def traced_matrix(gate):
-    """trees of gate.matrix() run on the symbolic backend."""
-    return matrix_trees(gate.matrix(sym_backend()))
+    """trees of gate.matrix() run on the symbolic backend.  Numeric parameters of the
+    gate object (e.g. the `np.pi / 2` a `_dagger` passes to a constructor) are wrapped
+    as symbolic constants first, so that cos(pi/2) is read as an exact real instead of
+    the float 6.1e-17."""
+    from .symtrace import const
+
+    params = getattr(gate, "_parameters", ())
+    wrapped = []
+    changed = False
+    for p in params or ():
+        if isinstance(p, (int, float, np.floating, np.integer)) and not isinstance(p, bool):
+            wrapped.append(S(const(p)))
+            changed = True
+        else:
+            wrapped.append(p)
+    if not changed:
+        return matrix_trees(gate.matrix(sym_backend()))
+    old = gate._parameters
+    try:
+        gate._parameters = tuple(wrapped)
+        return matrix_trees(gate.matrix(sym_backend()))
+    finally:
+        gate._parameters = old
 
 
 def numeric_matrix(trees, params):
@@ -174,3 +195,20 @@ def phase_equal(a, b, tol=1e-9):
     if abs(abs(c) - 1) > 1e-7:
         return False
     return np.allclose(a, c * b, atol=tol)
+
+
+def sgate_of(gate, dagger=False):
+    """(matrix trees, targets, controls, dagger) of a real gate object as the model sees it:
+    created by controlled_by → local matrix on target_qubits + controls; otherwise the
+    class matrix acts on gate.qubits (class-level controls first)."""
+    trees = traced_matrix(gate)
+    if gate.is_controlled_by:
+        return (trees, list(gate.target_qubits), list(gate.control_qubits), dagger)
+    return (trees, list(gate.qubits), [], dagger)
+
+
+def gate_descr(g):
+    ps = []
+    for p in getattr(g, "parameters", ()) or ():
+        ps.append(repr(p) if not isinstance(p, S) else "sym")
+    return f"{g.__class__.__name__}(t={list(g.target_qubits)},c={list(g.control_qubits)},cb={g.is_controlled_by},p={ps})"
